@@ -112,7 +112,12 @@ def normalise_idle(st):
     st = dict(st)
     st['tr'] = (0, 0)
     st.pop('had_bad', None)
+    for k in [k for k in st if k.startswith('tdict:')]:
+        del st[k]                    # the next test is another object with its own dictionary
     for k, v in list(st.items()):
+        if isinstance(v, tuple) and v and v[0] in ('tdict', 'dcopy'):
+            st[k] = OPAQUE
+            continue
         if isinstance(v, tuple) and v and v[0] == 'enum':
             st[k] = ('enum', v[1], 'older')
         elif isinstance(v, tuple) and len(v) == 2 and v[0] == 'param' and not v[1].endswith('@old'):
@@ -134,9 +139,13 @@ def clamp(st):
     return st
 
 
-def mark_dirty(st):
-    """while a test runs, whatever is installed as sys.stdout / sys.stderr may be written to"""
+def mark_dirty(st, dst=None):
+    """while a test runs, whatever is installed as sys.stdout / sys.stderr may be written to and
+    the test changes its own attributes"""
     st = dict(st)
+    if dst != 'SKIP0':
+        # (a test skipped by decorator is never run: its dictionary stays what it was)
+        st['tdict:test'] = 'dirty' if st.get('tdict:test', 'S0') in ('S0', 'dirty') else 'unknown'
     for c in ('sys.stdout', 'sys.stderr'):
         v = st.get(c)
         if v and v[0] == 'obj' and v[1].startswith('new:'):
@@ -186,19 +195,24 @@ def _explore_one(ctx, cls, variant, config, ex):
                 d2 = dst
                 if ctrl is not None and ctrl[1] == 'EndRun' and ps != 'END':
                     d2 = 'END' if ev_name != 'stopTest' else 'STOPPED'
+                elif ctrl is not None and ctrl[1] == 'LayerHookError':
+                    # user code (a layer's per-test hook) raised: the exception leaves the
+                    # callback and, the drivers calling startTest / stopTest outside any handler,
+                    # the run; nothing is called on this result object afterwards
+                    d2 = 'ABORTED'
                 elif ctrl is not None:
                     d2 = 'CRASHED'
                 tr = Transition(variant=variant, config=config, word=word + (ev_name,),
                                 event=ev_name, src=ps, dst=d2, pre=st, post=post, ctrl=ctrl,
                                 events=events, method=meth)
                 ex.transitions.append(tr)
-                if d2 in ('CRASHED', 'STOPPED'):
+                if d2 in ('CRASHED', 'STOPPED', 'ABORTED'):
                     continue
                 if ev_name in BAD_E and d2 != 'IDLE':
                     # this test has reported a failure or an error (a skip is not one)
                     post = dict(post)
                     post['had_bad'] = True
-                nst = normalise_idle(post) if d2 == 'IDLE' else clamp(mark_dirty(post))
+                nst = normalise_idle(post) if d2 == 'IDLE' else clamp(mark_dirty(post, d2))
                 key = (d2, freeze(nst))
                 if key not in seen:
                     if len(seen) >= STATE_CAP:
